@@ -686,7 +686,7 @@ static rc::Gen<Case> gen_getopt(int) {
         s += std::string(pick<int>({100, 1023, 1024}), pick<int>({'-', 'b', '=', 'x'}));
       e.second = 1;
     }
-    c.push_back(Op("p", {table, oe}));
+    c.push_back(Op("p", {table, oe, ri(0, 15)}));  // third parameter: abandon the parse after 1..4 labels when its low two bits are 0
     for (auto &e : av) c.push_back(Op("s", {e.second}, e.first));
     if (!oe && chance(1, 7)) c.push_back(Op("sweep"));
     return c;
